@@ -341,7 +341,8 @@ def check_einsum_callbacks(prog: Program, rep: Report, rule: str) -> None:
         for r in rets:
             if id(r) in nested_rets:
                 continue
-            v = r.value
+            from ..util import inline_temps as _it
+            v = _it(f.node, r.value)           # `result = semiring_einsum_forward(...); <log>; return result`
             okr = isinstance(v, ast.Call) and callee_last(v) == 'semiring_einsum_forward' and any(isinstance(a, ast.Name) and a.id == 'callback' or isinstance(a, ast.Name) and a.id in {c.name for c in f.children} for a in v.args)
             if not okr:
                 side.append(norm(v)[:80])
